@@ -577,6 +577,12 @@ class Instance:
             sim.on_publication(inst, ptype, body)
             return orig(ptype, body)
         handler.push_publication = push_publication
+        orig_req = handler.push_request
+
+        def push_request(identifier, request_type, request_body=None):
+            sim.on_request(inst, identifier, request_type, request_body)
+            return orig_req(identifier, request_type, request_body)
+        handler.push_request = push_request
 
     def _install_collector(self):
         sv = self.supvisors
@@ -829,6 +835,12 @@ class Sim:
             f = getattr(obs, 'on_publication', None)
             if f:
                 f(self, inst, ptype, body)
+
+    def on_request(self, inst, identifier, rtype, body):
+        for obs in self.observers:
+            f = getattr(obs, 'on_request', None)
+            if f:
+                f(self, inst, identifier, rtype, body)
 
     def _slice(self, inst):
         if not inst.alive:
